@@ -63,6 +63,7 @@ func C01() int {
 	})
 	// in-process channel on a subset: output must equal the CLI's byte for byte
 	agentCrossCheck(s, c, items, fsets)
+	optionHistory(s, c, items)
 	reportBatchAnomalies(c)
 	ls.put(c)
 	c.Set("flag_sets", flagNames(fsets))
